@@ -21,7 +21,8 @@ def _alarm(s, f):
 
 def cases(tier):
     d = {
-        "gauss": [(150, 40), (60, 15), (30, 60), (100, 30)], "uniform": [(20, 200), (100, 130)],      # gauss(100, 30) and uniform(100, 130): the same loc / scale in two families "schulz_zimm": [(260, 200), (150, 100)],
+        "gauss": [(150, 40), (60, 15), (30, 60), (100, 30)], "uniform": [(20, 200), (100, 130)], "schulz_zimm": [(260, 200), (150, 100)],
+        # (gauss(100, 30) and uniform(100, 130): the same loc / scale in two families)
         "log_normal": [(120, 1.3), (80, 1.05)], "poisson": [(100,), (40,)], "flory_schulz": [(0.02,), (0.05,)],
     }
     if tier == "thorough":
